@@ -55,8 +55,14 @@ DEC_RULE = ("explicit-state BFS over operation histories of the real decoder API
             "states deduplicated by a digest of the concrete library state; plus complete 2^n received-subset enumeration and deviation-bounded / window / periodic loss families on large configurations; "
             "a state is non-trivial if it differs from every other state in concrete library state or model state")
 DEC_BOUNDS = {
-    "quick": "BFS all orders: RS codec1/codec2(m=8,m=4) 1<=k<n<=6, LDPC k<=5,r in 3..5,n<=9,N1 in 3..min(r,5),seeds{1,2}; SAS subsets n<=9; subsets mode: all 2^n for RS m=4 n<=12, m=8/codec1 n<=11, LDPC n<=13; large: RS (k,n) list up to 255 with single-loss/replace/window/periodic families on strides, LDPC (100,50),(40,20),(255,64)",
-    "thorough": "BFS all orders: RS n<=9, LDPC k<=7,r<=7,n<=12,N1<=6,5 seeds; SAS subsets n<=12; subsets mode: all 2^n for RS m=4 all n<=15, m=8/codec1 n<=14, LDPC n<=16 list + n=20 list; large: all strides 1, double losses, LDPC (1000,500)",
+    "quick": ("BFS all orders + duplicates + both APIs (+FINISH): RS codec1/codec2(m=8,m=4) 1<=k<n<=6, LDPC k<=5,r in 3..5,n<=9,N1 in 3..min(r,5),seeds{1,2}; SAS subsets n<=9; "
+              "lowrate grid: 8 LDPC blocks k 2..4, r 10..14, N1 5..7, all orders of every prefix up to 5-6 symbols; "
+              "subsets mode: all 2^n received subsets for RS m=4 n<=12, m=8/codec1 n<=11, LDPC n<=13 (SAS+FIN, ascending DWS+FIN, descending DWS); "
+              "large: RS (k,n) list up to 255 and LDPC (100,50),(40,20),(255,64),(1000,10),(700,6): all/first-k/last-k/k-1 symbols, single loss, one source replaced by one repair, cyclic windows, periodic losses, on strides; "
+              "lens: 10 configurations x symbol lengths 1..40,63,64,65 x buffer alignments 0..7 (half of them above length 20) x callback none/buffer, plus the limits (k=1, k=n-1=254, n=255, m=4 n=15, LDPC n=5000)"),
+    "thorough": ("BFS: RS n<=9, LDPC k<=7,r<=7,n<=12,N1<=6,5 seeds; SAS subsets n<=12; lowrate: 16 blocks up to n=26, prefixes up to 6-7 symbols; "
+                 "subsets: RS m=4 all (k,n) n<=15, m=8/codec1 n<=14, LDPC n<=16 and the n=20 list; large: all strides 1, double losses / replacements, LDPC (1000,500),(3000,12); "
+                 "lens: all alignments at all lengths, LDPC n=50000 limits; rand() scripts: all r^r for r<=4, <=2 deviations for r<=5, <=1 otherwise"),
 }
 
 PROPS["C01"] = {
@@ -146,7 +152,7 @@ PROPS["C05"] = {
     "claim": "for every (k,r,N1,seed) of the grid and every pollution prefix (6 histories of other sessions, incl. a rejected configuration, an ML-decoding session and a displaced PRNG state): the parity-check matrix walked by rows and by columns in an encoder and in a decoder session equals the RFC 5170 reference entry by entry, and the encoder's codeword satisfies every reference equation (behavioural H); the interleaved case is C12",
     "technique": "exhaustive enumeration of a parameter grid x history prefixes on the real code against an independent RFC 5170 reference model",
     "rule": "point = (k,r,N1,seed,prefix); states = points, transitions = build_repair_symbol calls; all points distinct",
-    "bounds": {"quick": "k in {1..12,16,20,32}+3 large points, r in {3..12,16,32}, N1 3..min(r,10), seeds {1,2,2^31-2}, 6 prefixes", "thorough": "k up to 1000, r up to 500, 7 seeds, 6 prefixes (2 for the largest)"},
+    "bounds": {"quick": "k in {1..12,16,20,32}+3 large points, r in {3..12,16,32}, N1 3..min(r,10), seeds {1,2,2^31-2}, 6 prefixes; k=10000/20000 blocks (structural comparison) with 6 seeds; lengths 1..40 x alignments 1..7 on two small codes", "thorough": "k up to 1000, r up to 500, 7 seeds, 6 prefixes (2 for the largest); 117 further seeds on every shape k<=12, r<=12, N1<=7 (prefix rotating); k=10000/20000 blocks with 40 seeds"},
     "runs": [{"name": "ldpc-trk", "src": "h_enc.c", "variant": "trk", "args": ["--mode", "ldpc"]}],
 }
 PROPS["C06"] = {
@@ -165,7 +171,7 @@ PROPS["C15"] = {
     "claim": "for every (k,r,N1,seed) of the grid: encoder and decoder sessions give the same IS_LAST_SYMBOL_NULL answer; whenever it is true every source column of the RFC matrix has even weight and the encoder's last repair symbol on the identity+dense payload is all zero",
     "technique": "exhaustive enumeration of a parameter grid on the real code against the RFC 5170 reference model",
     "rule": "point = (k,r,N1,seed); non-trivial points are those where the claim is true (counted as null_last_claims)",
-    "bounds": {"quick": "k 1..12, r 3..10, N1 3..min(r,10), seeds 1..5, plus high-rate points", "thorough": "k 1..24, r 3..16, seeds 1..20,16807,2^31-2, plus high-rate points up to k=400"},
+    "bounds": {"quick": "k 1..12, r 3..10, N1 3..min(r,10), seeds 1..5, plus high-rate points", "thorough": "k 1..32, r 3..16, seeds 1..50,16807,2^31-2, plus high-rate points up to k=400"},
     "runs": [{"name": "ldpc-trk", "src": "h_enc.c", "variant": "trk", "args": ["--mode", "ldpc"]}],
 }
 PROPS["C02"]["runs"] += [{"name": "rsgen-trk", "src": "h_enc.c", "variant": "trk", "args": ["--mode", "rs"]}]
